@@ -13,6 +13,7 @@ import (
 	"os"
 	"path/filepath"
 	"sort"
+	"strings"
 	"sync"
 	"testing/synctest"
 	"time"
@@ -393,6 +394,72 @@ func (r *Restamper) After(e *fsmon.Event) {
 		if r.OnStamp != nil {
 			r.OnStamp(e.Path, e.MTime, true, e)
 		}
+	}
+}
+
+// StampObserver is the counterpart of Restamper for a backend whose own clock already is the process clock (afero's
+// MemMapFs inside a bubble): nothing is re-stamped, the modification times the backend itself gave to the object and to
+// its parent directory are read back after every effective mutating operation and reported when they changed. What the
+// backend does NOT stamp (MemMapFs leaves a directory's time alone when entries are added or removed) stays unstamped.
+type StampObserver struct {
+	Base    afero.Fs
+	OnStamp func(path string, t time.Time, explicit bool, e *fsmon.Event)
+	mu      sync.Mutex
+	last    map[string]time.Time
+}
+
+func (o *StampObserver) Before(e *fsmon.Event) {}
+
+func (o *StampObserver) look(path string, explicit bool, e *fsmon.Event) {
+	fi, err := o.Base.Stat(path)
+	if err != nil {
+		o.mu.Lock()
+		delete(o.last, path)
+		o.mu.Unlock()
+		return
+	}
+	t := fi.ModTime()
+	o.mu.Lock()
+	if o.last == nil {
+		o.last = map[string]time.Time{}
+	}
+	prev, known := o.last[path]
+	o.last[path] = t
+	o.mu.Unlock()
+	if (!known || !prev.Equal(t)) && o.OnStamp != nil {
+		o.OnStamp(path, t, explicit, e)
+	}
+}
+
+// After is the fsmon After hook.
+func (o *StampObserver) After(e *fsmon.Event) {
+	if e.Effective && (e.Op == fsmon.OpFClose || e.Op == fsmon.OpFSync) {
+		// MemMapFs stamps a file again when a writable handle on it is closed or synced
+		o.look(e.Path, false, e)
+		return
+	}
+	if !e.Effective || !e.Mut {
+		return
+	}
+	switch e.Op {
+	case fsmon.OpRemove, fsmon.OpRemoveAll:
+		o.mu.Lock()
+		for p := range o.last {
+			if p == e.Path || strings.HasPrefix(p, e.Path+string(filepath.Separator)) {
+				delete(o.last, p)
+			}
+		}
+		o.mu.Unlock()
+		o.look(filepath.Dir(e.Path), false, e)
+	case fsmon.OpRename:
+		o.look(e.Path2, false, e)
+		o.look(filepath.Dir(e.Path), false, e)
+		o.look(filepath.Dir(e.Path2), false, e)
+	case fsmon.OpChtimes:
+		o.look(e.Path, true, e)
+	default:
+		o.look(e.Path, false, e)
+		o.look(filepath.Dir(e.Path), false, e)
 	}
 }
 
